@@ -58,6 +58,7 @@ def build(rng):
     now = 0.25
     subbed = {g: {} for g in interval}  # ep -> (expires, via)
     pat = []
+    empties = 0
     vals = 0
     for _ in range(rng.randrange(4, 41)):
         pl = rng.choice(("new", "new", "new", "same", "same", "grid", "grid:after"))
@@ -102,6 +103,9 @@ def build(rng):
         elif r < 0.65:
             vals += 1
             a = dict(kind="set", g=g, ev=rng.choice(GROUPS[g]), val=vals.to_bytes(2, "big") + bytes(rng.randrange(0, 6)))
+            if rng.random() < 0.12:
+                a["val"] = b""  # an event without payload is a legal current value
+                empties += 1
         elif r < 0.93:
             evs = list(GROUPS[g])
             rng.shuffle(evs)
@@ -114,7 +118,7 @@ def build(rng):
         script.append((t, rank, a))
         pat.append((a["kind"], a.get("g"), a.get("ep"), tuple(a.get("evs", ())), pl))
         now = t
-    return dict(interval=interval, lat=lat, script=script, pat=tuple(pat), horizon=now + 2.5)
+    return dict(interval=interval, lat=lat, script=script, pat=tuple(pat), horizon=now + 2.5, empties=empties)
 
 
 class Run:
@@ -228,6 +232,7 @@ def judge(ctx, sc, seed, replay):
     ctx.count("unsubscribe_of_unsubscribed_endpoint", run.unknown_unsubs)
     if L:
         ctx.count("latency_scripts")
+    ctx.count("empty_values_set", sc.get("empties", 0))
     brief = dict(latency=L, intervals=sc["interval"], script=[(t, r, a) for t, r, a in sc["script"]][:18])
     nviol = [0]
 
